@@ -555,6 +555,10 @@ class OggFileType(FileType):
             reraise(self._Error, e, sys.exc_info()[2])
         except EOFError:
             raise self._Error("no appropriate stream found")
+        except ValueError as e:
+            # OggPage.to_packets() on pages with inconsistent serial or
+            # sequence numbers
+            reraise(self._Error, e, sys.exc_info()[2])
 
     @loadfile(writable=True)
     def delete(self, filething=None):
